@@ -52,7 +52,10 @@ UAColl2 == {Null, Bool(FALSE), Arr(<<Null>>), Arr(<<Bool(FALSE)>>), Arr(<<Bool(T
 \* the point is the position of the twin, not how it is carried)
 UACollPlain == {Arr(<<x, y, x>>) : x \in UAColl, y \in UAColl} \cup {Arr(<<x, y, w, x>>) : x \in UAColl2, y \in UAColl2, w \in UAColl2}
 UACollReps == UNION {RepsOf(v, {"float64"}, {"any"}, {"any"}) : v \in UACollPlain}
-UAPlain(z) == {Arr(e) : e \in UNION {[1..n -> UAElems] : n \in 0..(IF K >= 2 THEN 3 ELSE 2)}}
+\* (K >= 2: all pairs over the larger element set, all triples over a core of one value per JSON type)
+UACore == {Num(R_0), Num(R_1), Str("1"), Null, Arr(<<Num(R_m1)>>)}
+UAPlain(z) == {Arr(e) : e \in UNION {[1..n -> UAElems] : n \in 0..2}}
+              \cup (IF K >= 2 THEN {Arr(e) : e \in [1..3 -> UACore]} ELSE {})
               \cup {Arr(<<Num(R_1), Num(R_2), Num(R_0), x, Num(R_1h)>>) : x \in {Num(R_1), Num(R_4), Num(R_0)}}
 UAReps(v) == RepsOf(v, IF K >= 2 THEN {"float64", "int", "jsonNumber", "uint64"} ELSE {"float64", "jsonNumber", "negzero", "uint64"}, {"any", "arrayany", "array"}, IF K >= 2 THEN {"any", "typed"} ELSE {"any"})
 UASchemas == <<[uniqueItems |-> TRUE],
